@@ -301,7 +301,14 @@ fn check(c: &Case, obs: &mut Obs) -> Result<(), String> {
         obs.nontrivial();
     }
     // tensor-based checks: exact only, small sizes
-    if a.all_phases_quarter() && b.all_phases_quarter() && a.n <= 3 && b.n <= 3 {
+    // quizx's own tensor contraction is exponential in the size of the translated diagram: keep
+    // the tensor-based checks to small diagrams (a CCZ/Toffoli alone expands to ~25 spiders)
+    let small = |c: &Circ| {
+        c.n <= 3
+            && c.gates.len() <= 14
+            && !c.gates.iter().any(|g| matches!(g.k, GK::Ccx | GK::Ccz) || g.qs.len() > 2)
+    };
+    if a.all_phases_quarter() && b.all_phases_quarter() && small(&a) && small(&b) {
         let r = guarded("equal_circuit_tensor", || eq::equal_circuit_tensor(&qa, &qb))?;
         if r != t.equal {
             return Err(format!(
